@@ -520,7 +520,11 @@ func (r *runner) runWF() {
 			r.fail("setup-"+regName, err)
 			return
 		}
-		r.runCases(ts, ValidCases(reg, r.rng, r.thorough))
+		vcs := ValidCases(reg, r.rng, r.thorough)
+		if regName == "full" {
+			vcs = append(VersionSequenceCases(reg), vcs...)
+		}
+		r.runCases(ts, vcs)
 		for _, t := range ts {
 			t.Close()
 		}
@@ -666,6 +670,9 @@ func (r *runner) runAlike() {
 			return
 		}
 		cs := ValidCases(reg, r.rng, r.thorough)
+		if regName == "full" {
+			cs = append(VersionSequenceCases(reg), cs...)
+		}
 		if regName == "small" {
 			cs = append(cs, StringClassCases(reg, r.thorough)...)
 			cs = append(cs, MutationCases(reg, false)...)
